@@ -77,6 +77,9 @@ pub enum WMode {
 
 #[derive(Default)]
 struct WriterState {
+    /// the node is not draining the pipe: every poll_write parks until released
+    blocked: bool,
+    parked: Option<Waker>,
     out: Vec<u8>,
     /// mode for the n-th poll_write call (absent = All)
     modes: std::collections::BTreeMap<u64, WMode>,
@@ -89,6 +92,10 @@ pub struct PipeWriter(Arc<Mutex<WriterState>>);
 impl AsyncWrite for PipeWriter {
     fn poll_write(self: Pin<&mut Self>, cx: &mut Context<'_>, data: &[u8]) -> Poll<io::Result<usize>> {
         let mut s = self.0.lock().unwrap();
+        if s.blocked {
+            s.parked = Some(cx.waker().clone());
+            return Poll::Pending;
+        }
         let n = s.calls;
         s.calls += 1;
         match s.modes.get(&n).copied().unwrap_or(WMode::All) {
@@ -314,6 +321,11 @@ pub enum Step {
     /// complete the outstanding call that was the k-th gated call invoked in this episode
     Complete(usize),
     Select(u32),
+    /// the node stops / resumes draining the plugin's output pipe
+    BlockWriter,
+    ReleaseWriter,
+    /// complete whatever is outstanding now (calls that could only be dispatched after the pipe was released)
+    CompleteAll,
 }
 
 #[derive(Clone, Debug)]
@@ -385,6 +397,34 @@ pub fn run_episode(inst: &mut Instance, st: &Stream, e: &Episode) -> Vec<Violati
                 }
             }
             Step::Select(i) => sched::queue_select(*i),
+            Step::CompleteAll => loop {
+                let tx = {
+                    let mut c = inst.state.0.lock().unwrap();
+                    if c.outstanding.is_empty() {
+                        None
+                    } else {
+                        Some(c.outstanding.remove(0).1)
+                    }
+                };
+                match tx {
+                    Some(tx) => {
+                        let _ = tx.send(());
+                        inst.quiesce();
+                    }
+                    None => break,
+                }
+            },
+            Step::BlockWriter => inst.writer.0.lock().unwrap().blocked = true,
+            Step::ReleaseWriter => {
+                let w = {
+                    let mut g = inst.writer.0.lock().unwrap();
+                    g.blocked = false;
+                    g.parked.take()
+                };
+                if let Some(w) = w {
+                    w.wake();
+                }
+            }
         }
         inst.quiesce();
     }
@@ -792,6 +832,44 @@ pub fn run(thorough: bool, _threads: usize, name: &'static str) -> JobResult {
         }
         run_set("E6 select start branch", &mut eps.into_iter(), logging, &mut shared, &mut result, &mut outcomes);
     }
+    // E8: the node stops draining the output at some step and resumes only at the end (or one step later)
+    {
+        let mut eps: Vec<Episode> = Vec::new();
+        let base = interleavings(&st0, 0);
+        for (bi, b) in base.iter().enumerate() {
+            if !thorough && bi % 3 != 0 {
+                continue;
+            }
+            for at in 0..b.steps.len() {
+                let ep = next_ep();
+                let st = stream(ep);
+                // rebuild on this episode's boundaries
+                let mut steps = Vec::new();
+                let mut fed = 0;
+                for (i, s) in b.steps.iter().enumerate() {
+                    if i == at {
+                        steps.push(Step::BlockWriter);
+                    }
+                    match s {
+                        Step::Feed(..) => {
+                            let a = if fed == 0 { 0 } else { st.boundaries[fed - 1] };
+                            steps.push(Step::Feed(a, st.boundaries[fed]));
+                            fed += 1;
+                        }
+                        other => steps.push(other.clone()),
+                    }
+                }
+                steps.push(Step::ReleaseWriter);
+                steps.push(Step::CompleteAll);
+                eps.push(Episode {
+                    ep,
+                    steps,
+                    writer_modes: Vec::new(),
+                });
+            }
+        }
+        run_set("E8 output pipe blocked from some step until the end", &mut eps.into_iter(), logging, &mut shared, &mut result, &mut outcomes);
+    }
     // E7: three cuts among the interesting offsets
     if !logging && thorough {
         let mut eps: Vec<Episode> = Vec::new();
@@ -808,7 +886,7 @@ pub fn run(thorough: bool, _threads: usize, name: &'static str) -> JobResult {
     result.states = outcomes.len() as u64;
     result.distinct_outcomes = outcomes.len() as u64;
     result.rule = Some(format!(
-        "engine F{}: real cln_plugin Builder/driver/codec over in-memory pipes; node stream = handshake + 5 messages ({} bytes: two hook calls, two method calls with string ids one of whose handler returns an error, one notification; multi-byte characters, escaped and literal single newlines, one pretty-printed body); enumerated (per-set episode counts are in `extra`; with logging on the pair/triple cut sets are skipped): every single cut point x all 24 completion orders of the four gated calls (one of which fails), every pair of cut points, the all-single-bytes partition, every interleaving of message-sized feeds with handler completions, short/pending writes at each of the first 12 poll_write calls, select! start-branch deviations at every step{}; oracle: handlers invoked once per request in order with the sent params, output = complete JSON documents each followed by exactly one blank line, reply ids = request ids, replies echo their own request, nothing for notifications",
+        "engine F{}: real cln_plugin Builder/driver/codec over in-memory pipes; node stream = handshake + 5 messages ({} bytes: two hook calls, two method calls with string ids one of whose handler returns an error, one notification; multi-byte characters, escaped and literal single newlines, one pretty-printed body); enumerated (per-set episode counts are in `extra`; with logging on the pair/triple cut sets are skipped): every single cut point x all 24 completion orders of the four gated calls (one of which fails), every pair of cut points, the all-single-bytes partition, every interleaving of message-sized feeds with handler completions, short/pending writes at each of the first 12 poll_write calls, select! start-branch deviations at every step, the node not draining the output pipe from any step until the end{}; oracle: handlers invoked once per request in order with the sent params, output = complete JSON documents each followed by exactly one blank line, reply ids = request ids, replies echo their own request, nothing for notifications",
         if logging { " (logging on, one long-lived instance, episodes from the idle state)" } else { "" },
         n,
         if thorough { ", every triple of cut points among the interesting offsets (separators, multi-byte characters, escapes)" } else { "" }
